@@ -8,6 +8,10 @@ import (
 	"sort"
 	"strings"
 
+	"go/types"
+
+	"golang.org/x/tools/go/ssa"
+
 	"verif/tools/internal/core"
 	"verif/tools/internal/tables"
 )
@@ -269,16 +273,33 @@ func checkC20(c *Ctx) *core.Result {
 			r.OK("T4", "-", "writers of "+gname, p.Pos(g.Pos()), fmt.Sprintf("%v", ws))
 		}
 	}
+	// package-level variables whose initial value shares storage with a table (an
+	// index of sub-slices, a copy of the slice header …) are the table under another name
+	tableNames := []string{t.KeywordsVar, t.BlackTagsVar, t.BlacksVar, t.BlackEventsVar, t.HexMapVar}
+	aliases := tableAliases(p, tableNames)
+	for al, of := range aliases {
+		r.Note("package variable %s shares storage with table %s (initialiser): writes through it are writes to the table", al, of)
+	}
 	for _, f := range a.Findings {
 		if f.Rule == "R1" {
 			pos := "-"
 			if f.Ins != nil {
 				pos = p.Pos(f.Ins.Pos())
 			}
-			for _, gname := range []string{t.KeywordsVar, t.BlackTagsVar, t.BlacksVar, t.BlackEventsVar, t.HexMapVar} {
-				if strings.Contains(f.Expr, gname) {
-					r.Fail("T4", core.QualName(f.Fn), f.Expr, pos, f.Msg)
+			hit := false
+			for _, gname := range tableNames {
+				if gname != "" && strings.Contains(f.Expr, gname) {
+					hit = true
 				}
+			}
+			for al, of := range aliases {
+				if strings.Contains(f.Expr, al) {
+					hit = true
+					f.Msg += " (" + al + " shares storage with table " + of + ")"
+				}
+			}
+			if hit {
+				r.Fail("T4", core.QualName(f.Fn), f.Expr, pos, f.Msg)
 			}
 		}
 	}
@@ -287,7 +308,112 @@ func checkC20(c *Ctx) *core.Result {
 	if len(t.Keywords) < 5000 || nF < 5000 {
 		r.Fail("vacuity", "-", "keyword table size", "-", fmt.Sprintf("only %d keyword entries / %d fingerprints extracted (expected thousands)", len(t.Keywords), nF))
 	}
-	r.Explanation = "E2 literal extraction: every key and element of the five shipped table literals is read with go/constant from the type-checked AST (a non-constant entry fails the check). Per entry: well-formedness rules T2 (upper-case, ≤31 bytes, value in the declared class alphabet, fingerprint keys ^0[class]{1,5}$ with the comment class only last, function names ≥2 chars, XSS names upper-case and NUL-free, attribute types declared and non-None); per baseline entry (baseline/tables.json, produced once from the pinned commit by the same extractor): still present with the same classification (T3); no store to the table variables outside their initialiser (T4, from E1). Finite and enumerated completely."
+	r.Explanation = "E2 literal extraction: every key and element of the five shipped table literals is read with go/constant from the type-checked AST (a non-constant entry fails the check). Per entry: well-formedness rules T2 (upper-case, ≤31 bytes, value in the declared class alphabet, fingerprint keys ^0[class]{1,5}$ with the comment class only last, function names ≥2 chars, XSS names upper-case and NUL-free, attribute types declared and non-None); per baseline entry (baseline/tables.json, produced once from the pinned commit by the same extractor): still present with the same classification (T3); no store to the table variables outside their initialiser (T4, from E1), including stores and appends through package-level variables that the initialiser fills with a value sharing storage with a table (an index of sub-slices of it, the pointer-like result of a function that received it). Finite and enumerated completely."
 	r.Trusted = []string{"go/types constant evaluation", "the literal extractor (AST CompositeLit walk)", "baseline/tables.json as committed"}
 	return r
+}
+
+// tableAliases: package-level variables that the package initialiser fills with a
+// value derived from one of the tables (a slice of it, or the pointer-like result of
+// a function that received it).
+func tableAliases(p *core.Program, tables []string) map[string]string {
+	isTable := map[string]bool{}
+	for _, n := range tables {
+		if n != "" {
+			isTable[n] = true
+		}
+	}
+	out := map[string]string{}
+	var from func(v ssa.Value, depth int) string
+	from = func(v ssa.Value, depth int) string {
+		if depth > 8 || v == nil {
+			return ""
+		}
+		switch x := v.(type) {
+		case *ssa.Global:
+			if isTable[x.Name()] {
+				return x.Name()
+			}
+			if t, ok := out[x.Name()]; ok {
+				return t
+			}
+		case *ssa.UnOp:
+			return from(x.X, depth+1)
+		case *ssa.Slice:
+			return from(x.X, depth+1)
+		case *ssa.IndexAddr:
+			return from(x.X, depth+1)
+		case *ssa.FieldAddr:
+			return from(x.X, depth+1)
+		case *ssa.ChangeType:
+			return from(x.X, depth+1)
+		case *ssa.MakeInterface:
+			return from(x.X, depth+1)
+		case *ssa.Phi:
+			for _, e := range x.Edges {
+				if t := from(e, depth+1); t != "" {
+					return t
+				}
+			}
+		case *ssa.Call:
+			if !pointerish(x.Type()) {
+				return ""
+			}
+			for _, arg := range x.Common().Args {
+				if t := from(arg, depth+1); t != "" {
+					return t
+				}
+			}
+		}
+		return ""
+	}
+	for round := 0; round < 3; round++ {
+		for _, fn := range []*ssa.Function{p.SSAPkg.Func("init")} {
+			if fn == nil {
+				continue
+			}
+			for _, b := range fn.Blocks {
+				for _, ins := range b.Instrs {
+					st, ok := ins.(*ssa.Store)
+					if !ok {
+						continue
+					}
+					addr := st.Addr
+					for d := 0; d < 6; d++ {
+						switch x := addr.(type) {
+						case *ssa.IndexAddr:
+							addr = x.X
+						case *ssa.FieldAddr:
+							addr = x.X
+						}
+					}
+					g, ok := addr.(*ssa.Global)
+					if !ok || isTable[g.Name()] {
+						continue
+					}
+					if t := from(st.Val, 0); t != "" {
+						out[g.Name()] = t
+					}
+				}
+			}
+		}
+	}
+	return out
+}
+
+// pointerish: values of this type can share storage with their source.
+func pointerish(t types.Type) bool {
+	switch u := t.Underlying().(type) {
+	case *types.Slice, *types.Pointer, *types.Map:
+		return true
+	case *types.Array:
+		return pointerish(u.Elem())
+	case *types.Struct:
+		for i := 0; i < u.NumFields(); i++ {
+			if pointerish(u.Field(i).Type()) {
+				return true
+			}
+		}
+	}
+	return false
 }
